@@ -10,49 +10,101 @@ PROPS_FILE = "theories/Props/C04.v"
 EXTRACT = ("theories/Extract/XC04.v", "c04", ["entry_recon", "entry_check", "entry_iter", "entry_prep_check"])
 PYX = {"_cpmorphology2.pyx": ["grey_reconstruction_loop"]}
 CASE_TIMEOUT = 30
-RULE = ("cases = (seed, mask, footprint) with pixel values given as integer CODES plus an order-preserving "
-        "encoding (int64/int32/uint8/float64/float32 value = code, or a strictly increasing table of random reals, "
-        "also all-negative) that is applied before calling grey_reconstruction and inverted exactly on its output "
-        "(outputs are copies of inputs); shapes 1x1..9x9 (thorough ..30x30, skewed to 1xN, Nx1, 2x2, 3x3); value "
-        "classes constant / plateaus (2-5 levels) / wider integers / all-distinct; seeds = mask, mask-d, random below, "
-        "single or few markers, far below; footprints None (default), 4-connected, full, random 3x3, 5x5, 3x5, 5x3, "
-        "3x7, 7x3, single asymmetric offset, empty; C and Fortran memory order; ~4% malformed (seed>mask, shape "
-        "mismatch, even footprint) where model and implementation must reject alike. Non-trivial = the output "
-        "differs from the seed somewhere AND from the mask somewhere (propagation and clipping both happened); "
+RULE = ("cases = (seed, mask, footprint, offset) with pixel values given as integer CODES plus a strictly increasing "
+        "value table and one dtype each for seed and mask: the table is applied before calling grey_reconstruction "
+        "and inverted exactly on its float64 output (outputs are copies of inputs). Tables: identity, dtype "
+        "extremes (min, min+1, .., max-1, max of bool/int8..int64/uint8..uint64 with spans above half the range; "
+        "float64-injective for the 64-bit types), random reals (float64, float32-exact, tiny/huge magnitudes, with "
+        "-inf/+inf ends, -0.0 for 0.0); seed and mask dtypes drawn independently among all dtypes that hold their "
+        "values; layouts C/Fortran/strided/reversed/read-only views for seed, mask and footprint; offset None, the "
+        "centre given as array/list/tuple, and non-central origins incl. even-sized footprints whenever every "
+        "footprint offset stays within the padding shape//2; shapes 1x1..9x9 (thorough ..30x30, skewed to 1xN, Nx1, "
+        "2x2, 3x3); value classes constant/plateaus/wider integers/all-distinct; seeds = mask, mask-d, random below, "
+        "markers, far below; footprints None, 4-connected, full, random 3x3..9x9, 3x7, 7x3 (larger than the image), "
+        "single asymmetric offset, empty; each case is called three times in a long-lived child process that serves "
+        "many cases (result, result re-applied, same inputs again); ~4% malformed (seed>mask, shape mismatch, even "
+        "footprint without offset). Non-trivial = output differs from the seed somewhere AND from the mask somewhere; "
         "distinct by hash of the case")
 TRUSTED = [
     "modelled, not verified: NumPy stable lexsort (as sort of (value desc, index asc) pairs), argsort tie order "
-    "inside rank_order (immaterial: equal values get equal ranks), np.min/ones/flatten/fancy scatter semantics",
-    "the order-preserving integer coding of float data on the Python side (the code only compares and copies values)",
+    "inside rank_order (immaterial: equal values get equal ranks), np.min/ones/flatten/fancy scatter semantics, the "
+    "conversion of every input dtype to float64 (generator keeps it injective and counts exclusions)",
+    "the order-preserving integer coding of the data on the Python side (the code only compares and copies values)",
     "the untrusted level certificate is computed by a breadth-first pass in the harness; only its check is verified",
 ]
 ASSUMPTIONS = [
-    "2-D images, offset=None (the observed call grey_reconstruction(seed, mask, footprint)); no NaN",
+    "2-D images (1-D and 3-D inputs run through the same flat loop but are not modelled); no NaN; boolean footprints "
+    "(an integer-typed footprint is silently misread by footprint_mgrid[:, footprint]: findings/C04.json)",
     "2 * padded size < 2^31 (int32 list links) and fewer than 2^32 distinct values (uint32 ranks)",
-    "footprint dimensions odd and >= 3 (a dimension of 1 gives padding 0 and slice(0, -0), outside the property)",
+    "footprint dimensions >= 2 and every footprint offset within the padding shape//2 (always true for odd "
+    "dimensions >= 3 with offset=None); a dimension of 1 gives padding 0 and slice(0, -0)",
 ]
 EXHAUSTIVE = {"quick": False, "thorough": False}
 
+INT_DT = ["int8", "int16", "int32", "int64", "uint8", "uint16", "uint32", "uint64"]
+ALL_DT = ["bool"] + INT_DT + ["float32", "float64"]
+
 
 # ---------------------------------------------------------------------------- encoding
+def _fits(vals, dt):
+    """every value of the list is exactly representable in dtype dt"""
+    if dt == "bool":
+        return all(isinstance(v, int) and v in (0, 1) for v in vals)
+    if dt in INT_DT:
+        ii = np.iinfo(dt)
+        return all(isinstance(v, int) and ii.min <= v <= ii.max for v in vals)
+    f = np.float32 if dt == "float32" else np.float64
+    for v in vals:
+        try:
+            with np.errstate(all="ignore"):
+                x = float(f(v))
+        except OverflowError:
+            return False
+        if isinstance(v, int):
+            if x in (float("inf"), float("-inf")) or int(x) != v:
+                return False
+        elif x != v:
+            return False
+    return True
+
+
+def _injective64(tbl):
+    """the float64 images of the table are strictly increasing (values[...] = image casts to float64)"""
+    f = [float(v) for v in tbl]
+    return all(a < b for a, b in zip(f[:-1], f[1:]))
+
+
 def _value(enc, k):
-    if enc["kind"] == "tbl":
-        return enc["tbl"][k - enc["lo"]]
-    return k
+    return enc["tbl"][k - enc["lo"]]
 
 
-def _encode(enc, grid, which):
-    a = np.array(grid)
-    if a.ndim != 2:
-        a = a.reshape(len(grid), -1)
-    if enc["kind"] == "tbl":
-        t = np.array(enc["tbl"], float)
-        r = t[(a - enc["lo"]).astype(int)] if a.size else np.zeros(a.shape)
-    else:
-        r = a.astype(enc[which])
-    if enc.get("order") == "F":
-        r = np.asfortranarray(r)
-    return r
+def _layout(a, kind):
+    if kind == "F":
+        return np.asfortranarray(a)
+    if kind == "strided":
+        big = np.zeros((a.shape[0] * 2 + 1, a.shape[1] * 3 + 2), a.dtype)
+        big[1::2, 2::3][:a.shape[0], :a.shape[1]] = a
+        return big[1::2, 2::3][:a.shape[0], :a.shape[1]]
+    if kind == "rev":
+        return np.ascontiguousarray(a[::-1, ::-1])[::-1, ::-1]
+    if kind == "ro":
+        b = a.copy()
+        b.flags.writeable = False
+        return b
+    return np.ascontiguousarray(a)
+
+
+def _encode(enc, grid, dt, lay, negzero=False):
+    vals = [[_value(enc, k) for k in row] for row in grid]
+    if len(vals) and len(set(map(len, vals))) != 1:
+        raise ValueError("ragged")
+    a = np.array(vals, dtype=dt).reshape(len(vals), -1)
+    if negzero and a.dtype.kind == "f":
+        ii, jj = np.nonzero(a == 0)
+        for i, j in zip(ii, jj):
+            if (i + j) % 2 == 0:
+                a[i, j] = -0.0
+    return _layout(a, lay)
 
 
 def _decoder(enc, case):
@@ -65,6 +117,17 @@ def _decoder(enc, case):
 
 def _fp_grid(case):
     return case["fp"] if case["fp"] is not None else [[1, 1, 1], [1, 1, 1], [1, 1, 1]]
+
+
+def _off_arg(case):
+    o = case.get("offset")
+    return [] if not o else list(o["o"])
+
+
+def _origin(case):
+    g = _fp_grid(case)
+    o = case.get("offset")
+    return tuple(o["o"]) if o else (len(g) // 2, len(g[0]) // 2)
 
 
 # ---------------------------------------------------------------------------- generator
@@ -86,7 +149,7 @@ def _shape(rng, big):
 
 
 def _mask_codes(rng, H, W):
-    k = rng.choice(["const", "plateau", "plateau", "int", "distinct", "neg", "blocks"])
+    k = rng.choice(["const", "plateau", "plateau", "int", "distinct", "neg", "blocks", "two"])
     if k == "const":
         m = np.full((H, W), int(rng.randint(-3, 6)))
     elif k == "plateau":
@@ -97,6 +160,8 @@ def _mask_codes(rng, H, W):
         m = rng.permutation(H * W).reshape(H, W) + int(rng.randint(0, 3))
     elif k == "neg":
         m = rng.randint(-9, 0, (H, W))
+    elif k == "two":
+        m = rng.randint(0, 2, (H, W))
     else:
         m = np.kron(rng.randint(0, 4, ((H + 1) // 2, (W + 1) // 2)), np.ones((2, 2), int))[:H, :W]
     return str(k), m.astype(int)
@@ -125,61 +190,168 @@ def _seed_codes(rng, m):
     return str(k), np.minimum(s, m).astype(int)
 
 
+def _safe_origin(f, o0, o1):
+    fh, fw = f.shape
+    for a, b in np.argwhere(f):
+        if (a, b) != (o0, o1) and (abs(a - o0) > fh // 2 or abs(b - o1) > fw // 2):
+            return False
+    return True
+
+
 def _footprint(rng):
-    k = rng.choice(["def", "def", "4", "full", "r33", "r33", "r55", "r35", "r53", "r37", "r73", "one", "empty", "r77"],
-                   p=[.16, .10, .10, .05, .12, .08, .10, .05, .05, .05, .04, .05, .02, .03])
+    """returns (class, grid or None, offset or None)"""
+    k = rng.choice(["def", "4", "full", "r33", "r55", "r35", "r53", "r37", "r73", "one", "empty", "r77", "r99",
+                    "even", "ctr", "shift"],
+                   p=[.20, .08, .04, .14, .09, .04, .04, .04, .04, .05, .02, .03, .02, .07, .06, .04])
     if k == "def":
-        return "def", None
+        return "def", None, None
     if k == "4":
-        return "4", [[0, 1, 0], [1, 1, 1], [0, 1, 0]]
+        return "4", [[0, 1, 0], [1, 1, 1], [0, 1, 0]], None
     if k == "full":
-        return "full", [[1, 1, 1], [1, 1, 1], [1, 1, 1]]
+        return "full", [[1, 1, 1], [1, 1, 1], [1, 1, 1]], None
     dims = {"r33": (3, 3), "r55": (5, 5), "r35": (3, 5), "r53": (5, 3), "r37": (3, 7), "r73": (7, 3), "r77": (7, 7),
-            "one": (3, 3), "empty": (3, 3)}[k]
+            "r99": (9, 9), "one": (3, 3), "empty": (3, 3)}.get(k)
     if k == "one":
         f = np.zeros(dims, int)
         f[int(rng.randint(3)), int(rng.randint(3))] = 1
-    elif k == "empty":
+        return k, f.tolist(), None
+    if k == "empty":
         f = np.zeros(dims, int)
         f[1, 1] = int(rng.randint(2))
+        return k, f.tolist(), None
+    how = str(rng.choice(["array", "list", "tuple"]))
+    if k == "ctr":       # the default origin, passed explicitly
+        dims = [(3, 3), (5, 5), (3, 5), (5, 3), (3, 7)][int(rng.randint(5))]
+        f = (rng.rand(*dims) < 0.5).astype(int)
+        return k, f.tolist(), {"o": [dims[0] // 2, dims[1] // 2], "as": how}
+    if k in ("even", "shift"):
+        for _ in range(20):
+            if k == "even":
+                dims = [(2, 2), (2, 3), (3, 2), (4, 4), (4, 3), (2, 5), (4, 2), (6, 4)][int(rng.randint(8))]
+            else:
+                dims = [(3, 3), (5, 5), (3, 5), (5, 3), (7, 3)][int(rng.randint(5))]
+            f = (rng.rand(*dims) < rng.choice([0.3, 0.6, 1.0])).astype(int)
+            o0, o1 = int(rng.randint(dims[0])), int(rng.randint(dims[1]))
+            if _safe_origin(f, o0, o1):
+                return k, f.tolist(), {"o": [o0, o1], "as": how}
+        return "def", None, None
+    f = (rng.rand(*dims) < rng.choice([0.25, 0.5, 0.7])).astype(int)
+    return str(k), f.tolist(), None
+
+
+def _ext_table(rng, dt, n):
+    """n strictly increasing values of dtype dt that include its extremes"""
+    if dt == "bool":
+        return [0, 1][:n] if n <= 2 else None
+    ii = np.iinfo(dt)
+    mn, mx = int(ii.min), int(ii.max)
+    if mx - mn + 1 < n:
+        return None
+    pool = {mn, mx}
+    for v in (mn + 1, mx - 1, 0, 1, -1, mn // 2, mx // 2, mx // 2 + 1, mn + 2, mx - 2):
+        if mn <= v <= mx:
+            pool.add(v)
+    if dt in ("int64", "uint64"):
+        # keep the float64 images distinct: extremes plus multiples of 2^12 away from them
+        pool = {mn, mx}
+        if mn <= 0:
+            pool.add(0)
+        while len(pool) < n + 4:
+            v = int(rng.randint(-2 ** 50, 2 ** 50)) * 4096
+            if mn + 2 ** 13 <= v <= mx - 2 ** 13:
+                pool.add(v)
+    pool = sorted(pool)
+    if len(pool) > n:
+        keep = {pool[0], pool[-1]}
+        rest = [v for v in pool if v not in keep]
+        rng.shuffle(rest)
+        pool = sorted(list(keep) + rest[:max(0, n - 2)]) if n >= 2 else [pool[int(rng.randint(len(pool)))]]
+    while len(pool) < n:
+        span = mx - mn
+        v = mn + int(rng.randint(0, 2 ** 31)) * (span // 2 ** 31 + 1) % (span + 1)
+        if dt in ("int64", "uint64"):
+            v = (v // 4096) * 4096
+            if not (mn + 2 ** 13 <= v <= mx - 2 ** 13):
+                continue
+        if v not in pool:
+            pool = sorted(pool + [v])
+    return pool
+
+
+def _real_table(rng, n):
+    k = str(rng.choice(["unit", "neg", "small", "huge", "f32", "inf", "mixed"]))
+    if k == "unit":
+        t = rng.rand(n)
+    elif k == "neg":
+        t = rng.rand(n) - 2.0
+    elif k == "small":
+        t = rng.rand(n) * 1e-300
+    elif k == "huge":
+        t = (rng.rand(n) - 0.5) * 1e300
+    elif k == "f32":
+        t = (rng.rand(n).astype(np.float32) * np.float32(rng.choice([1.0, 1e-30, 1e30]))).astype(float)
     else:
-        f = (rng.rand(*dims) < rng.choice([0.25, 0.5, 0.7])).astype(int)
-    return str(k), f.tolist()
+        t = np.round((rng.rand(n) - 0.5) * 8, int(rng.randint(0, 3)))
+    t = sorted(set(float(x) for x in t))
+    if len(t) != n:
+        return k, None
+    if k in ("inf", "mixed") and n >= 2:
+        if rng.rand() < 0.7:
+            t[0] = float("-inf")
+        if rng.rand() < 0.7:
+            t[-1] = float("inf")
+    return k, t
 
 
-def _enc(rng, s, m):
+def _enc(rng, s, m, count):
     lo, hi = int(min(s.min(), m.min())), int(m.max())
+    n = hi - lo + 1
+    svals = lambda tbl: sorted(set(tbl[k - lo] for k in s.ravel().tolist()))
+    mvals = lambda tbl: sorted(set(tbl[k - lo] for k in m.ravel().tolist()))
+    tbl, tk = None, None
     u = rng.rand()
-    if u < 0.45:
-        tbl = np.sort(rng.rand(hi - lo + 1) * rng.choice([1.0, 1e-3, 1e6]) - rng.choice([0.0, 0.5, 2e6]))
-        tbl = np.unique(tbl)
-        if len(tbl) == hi - lo + 1:
-            return {"kind": "tbl", "lo": lo, "tbl": [float(x) for x in tbl], "order": "F" if rng.rand() < 0.1 else "C"}
-    ints = ["int64", "int32", "float64", "float32", "int16"]
-    if lo >= 0 and hi < 256:
-        ints.append("uint8")
-    return {"kind": "num", "seed": str(rng.choice(ints)), "mask": str(rng.choice(ints)),
-            "order": "F" if rng.rand() < 0.1 else "C"}
+    if u < 0.35:
+        dt = str(rng.choice(["bool"] + INT_DT))
+        tbl = _ext_table(rng, dt, n)
+        tk = "ext-" + dt
+    elif u < 0.65:
+        rk, tbl = _real_table(rng, n)
+        tk = "real-" + rk
+    if tbl is not None and not _injective64(tbl):
+        count("excluded: table not injective in float64")
+        tbl = None
+    if tbl is None:
+        tbl, tk = list(range(lo, hi + 1)), "ident"
+    sd = [d for d in ALL_DT if _fits(svals(tbl), d)]
+    md = [d for d in ALL_DT if _fits(mvals(tbl), d)]
+    pick = lambda ds: str(ds[int(rng.randint(len(ds)))]) if rng.rand() < 0.7 else str(ds[0])   # ds[0] = narrowest
+    lay = ["C", "C", "C", "F", "strided", "rev", "ro"]
+    return tk, {"lo": lo, "tbl": tbl, "sd": pick(sd), "md": pick(md), "negzero": bool(rng.rand() < 0.3)}, \
+        {"seed": str(rng.choice(lay)), "mask": str(rng.choice(lay)), "fp": str(rng.choice(["C", "C", "F", "strided"]))}
 
 
-def _random_case(rng, big):
+def _random_case(rng, big, count=lambda k: None):
     H, W = _shape(rng, big)
     mk, m = _mask_codes(rng, H, W)
     sk, s = _seed_codes(rng, m)
-    fk, fp = _footprint(rng)
-    case = {"seed": s.tolist(), "mask": m.tolist(), "fp": fp, "enc": _enc(rng, s, m), "bad": None,
-            "cls": "%s/%s/%s" % (mk, sk, fk)}
+    fk, fp, off = _footprint(rng)
+    tk, enc, lay = _enc(rng, s, m, count)
+    case = {"seed": s.tolist(), "mask": m.tolist(), "fp": fp, "offset": off, "enc": enc, "lay": lay, "bad": None,
+            "cls": "%s/%s/%s/%s" % (mk, sk, fk, tk)}
     u = rng.rand()
     if u < 0.015:
         i, j = int(rng.randint(H)), int(rng.randint(W))
+        lo = min(min(map(min, case["seed"])), min(map(min, case["mask"])))
+        hi = max(map(max, case["mask"])) + 1
         case["seed"][i][j] = case["mask"][i][j] + 1
-        case["enc"] = {"kind": "num", "seed": "int64", "mask": "int64", "order": "C"}
+        case["enc"] = {"lo": lo, "tbl": list(range(lo, hi + 1)), "sd": "int64", "md": "int64", "negzero": False}
         case["bad"] = "seed>mask"
     elif u < 0.03:
         case["mask"] = case["mask"] + [case["mask"][-1]]
         case["bad"] = "shape"
     elif u < 0.04:
         case["fp"] = [[1, 1, 1, 1], [1, 1, 1, 1], [1, 1, 1, 1]] if rng.rand() < 0.5 else [[1, 1, 1], [1, 1, 1]]
+        case["offset"] = None
         case["bad"] = "evenfp"
     return case
 
@@ -203,98 +375,155 @@ def generate(ctx):
         ctx.count("corpus")
     big = ctx.n(9, 30)
     for _ in range(ctx.n(3000, 20000)):
-        cases.append(_random_case(rng, big))
+        cases.append(_random_case(rng, big, ctx.count))
     for c in cases:
-        ctx.count("shape %s" % ("1x1" if len(c["seed"]) == 1 and len(c["seed"][0]) == 1 else
-                                "line" if len(c["seed"]) == 1 or len(c["seed"][0]) == 1 else
-                                "<=4" if max(len(c["seed"]), len(c["seed"][0])) <= 4 else
-                                "<=9" if max(len(c["seed"]), len(c["seed"][0])) <= 9 else ">9"))
-        ctx.count("fp " + c.get("cls", "corpus//").split("/")[2])
-        ctx.count("enc " + c["enc"]["kind"])
+        hw = max(len(c["seed"]), len(c["seed"][0]))
+        ctx.count("shape %s" % ("1x1" if hw == 1 else "line" if min(len(c["seed"]), len(c["seed"][0])) == 1 else
+                                "<=4" if hw <= 4 else "<=9" if hw <= 9 else ">9"))
+        parts = (c.get("cls", "corpus") + "///").split("/")
+        ctx.count("fp " + parts[2])
+        ctx.count("table " + parts[3])
+        ctx.count("dtype seed " + c["enc"]["sd"])
+        ctx.count("dtype mask " + c["enc"]["md"])
+        ctx.count("layout " + c["lay"]["seed"])
+        ctx.count("offset " + ("None" if not c.get("offset") else c["offset"]["as"]))
         if c.get("bad"):
             ctx.count("malformed " + c["bad"])
     return cases
 
 
 # ---------------------------------------------------------------------------- implementation side
-_HANGS = [0]
+class _Server:
+    """A long-lived forked child that serves cases one after the other (several calls in one process), watched by
+    the parent: a broken list (cycle) makes the C loop spin forever without returning to the interpreter and an
+    out-of-range link can kill the process.  Both are outcomes of the case ({"crash": ...}); the child is then
+    replaced.  The first hang is given 20 s; once one has been seen the limit drops (the run is failing anyway)."""
+    pid = None
+    to_child = None
+    from_child = None
+    served = 0
+    hangs = 0
+    buf = b""
 
 
-def impl(case):
-    """Runs the real call in a forked child: a broken list (cycle) makes the C loop spin forever without ever
-    returning to the interpreter, and an out-of-range link can kill the process.  Both are outcomes of the case,
-    reported as {"crash": ...}.  The first hang is given 20 s; once one has been seen the limit drops (the run is
-    failing anyway and hundreds of hanging cases must not take hours)."""
-    import select
+def _start_server():
     import signal
-    import time
     from centrosome import cpmorphology as _M     # noqa: import in the parent so that children do not re-import
-    r, w = os.pipe()
+    c2p_r, c2p_w = os.pipe()
+    p2c_r, p2c_w = os.pipe()
     pid = os.fork()
     if pid == 0:
         try:
-            os.close(r)
+            os.close(c2p_r); os.close(p2c_w)
             signal.alarm(0)
-            try:
-                o = _impl(case)
-            except BaseException as e:      # noqa
-                o = {"exc": type(e).__name__, "msg": str(e)[:300]}
-            data = json.dumps(o).encode()
-            while data:
-                n = os.write(w, data)
-                data = data[n:]
+            inp = os.fdopen(p2c_r, "rb")
+            for line in inp:
+                case = json.loads(line.decode())
+                try:
+                    o = _impl(case)
+                except BaseException as e:      # noqa
+                    o = {"exc": type(e).__name__, "msg": str(e)[:300]}
+                data = json.dumps(o).encode() + b"\n"
+                while data:
+                    n = os.write(c2p_w, data)
+                    data = data[n:]
         finally:
             os._exit(0)
-    os.close(w)
-    limit = 20.0 if _HANGS[0] == 0 else (2.0 if _HANGS[0] < 5 else 0.5)
+    os.close(c2p_w); os.close(p2c_r)
+    _Server.pid, _Server.to_child, _Server.from_child, _Server.served, _Server.buf = pid, p2c_w, c2p_r, 0, b""
+
+
+def _stop_server(kill=False):
+    import signal
+    if _Server.pid is None:
+        return None
+    for fd in (_Server.to_child, _Server.from_child):
+        try:
+            os.close(fd)
+        except OSError:
+            pass
+    if kill:
+        try:
+            os.kill(_Server.pid, signal.SIGKILL)
+        except OSError:
+            pass
+    _, status = os.waitpid(_Server.pid, 0)
+    _Server.pid = None
+    return status
+
+
+def impl(case):
+    import select
+    import time
+    if _Server.pid is not None and _Server.served >= 200:
+        _stop_server()
+    if _Server.pid is None:
+        _start_server()
+    data = json.dumps(case).encode() + b"\n"
+    try:
+        while data:
+            n = os.write(_Server.to_child, data)
+            data = data[n:]
+    except OSError:
+        st = _stop_server(kill=True)
+        return {"crash": "child died", "detail": "before this case was sent, wait status %s" % st}
+    limit = 20.0 if _Server.hangs == 0 else (2.0 if _Server.hangs < 5 else 0.5)
     t_end = time.time() + limit
-    buf = b""
-    hung = False
-    while True:
+    while b"\n" not in _Server.buf:
         left = t_end - time.time()
         if left <= 0:
-            hung = True
-            break
-        ready, _, _ = select.select([r], [], [], left)
+            _stop_server(kill=True)
+            _Server.hangs += 1
+            return {"crash": "hang", "detail": "grey_reconstruction did not return within %.1f s" % limit}
+        ready, _, _ = select.select([_Server.from_child], [], [], left)
         if ready:
-            chunk = os.read(r, 1 << 16)
+            chunk = os.read(_Server.from_child, 1 << 16)
             if not chunk:
-                break
-            buf += chunk
-    os.close(r)
-    if hung:
-        os.kill(pid, signal.SIGKILL)
-    _, status = os.waitpid(pid, 0)
-    if hung:
-        _HANGS[0] += 1
-        return {"crash": "hang", "detail": "grey_reconstruction did not return within %.1f s" % limit}
-    if not buf:
-        return {"crash": "child died", "detail": "wait status %d" % status}
-    return json.loads(buf.decode())
+                st = _stop_server()
+                return {"crash": "child died", "detail": "wait status %s" % st}
+            _Server.buf += chunk
+    line, _Server.buf = _Server.buf.split(b"\n", 1)
+    _Server.served += 1
+    return json.loads(line.decode())
+
+
+def _same(a, b):
+    return bool(a.shape == b.shape and a.dtype == b.dtype and np.array_equal(a, b))
 
 
 def _impl(case):
     from centrosome import cpmorphology as M
-    enc = case["enc"]
-    img = _encode(enc, case["seed"], "seed")
-    msk = _encode(enc, case["mask"], "mask")
-    fp = None if case["fp"] is None else np.array(case["fp"], bool)
-    fp0 = None if fp is None else fp.copy()
-    r = M.grey_reconstruction(img, msk, fp)
+    enc, lay = case["enc"], case["lay"]
+    img = _encode(enc, case["seed"], enc["sd"], lay["seed"], enc.get("negzero"))
+    msk = _encode(enc, case["mask"], enc["md"], lay["mask"], enc.get("negzero"))
+    fp = None if case["fp"] is None else _layout(np.array(case["fp"], bool), lay["fp"])
+    kw = {}
+    if case.get("offset"):
+        o = case["offset"]
+        kw["offset"] = np.array(o["o"]) if o["as"] == "array" else list(o["o"]) if o["as"] == "list" else tuple(o["o"])
+    img0, msk0, fp0 = img.copy(), msk.copy(), None if fp is None else fp.copy()
+    r = np.asarray(M.grey_reconstruction(img, msk, fp, **kw))
     dec = _decoder(enc, case)
-    r = np.asarray(r)
-    out = {"shape": list(r.shape), "fp_mutated": bool(fp is not None and not np.array_equal(fp, fp0))}
+    out = {"shape": list(r.shape), "dtype": str(r.dtype)}
     try:
         out["R"] = [[dec[float(v)] for v in row] for row in r.tolist()]
     except KeyError as e:
         out["not_a_copy"] = repr(e)
         return out
+    out["inputs_mutated"] = bool(not np.array_equal(img, img0) or not np.array_equal(msk, msk0)
+                                 or (fp is not None and not np.array_equal(fp, fp0)))
     try:
-        r2 = np.asarray(M.grey_reconstruction(r, msk, fp))
-        out["again_same"] = bool(r2.shape == r.shape and np.array_equal(r2, r))
+        r2 = np.asarray(M.grey_reconstruction(r, msk, fp, **kw))
+        out["again_same"] = _same(r2, r)
     except Exception as e:      # noqa: the first output is still reported and checked
         out["again_same"] = False
         out["again_exc"] = type(e).__name__
+    try:
+        r3 = np.asarray(M.grey_reconstruction(img0, msk0, fp0, **kw))
+        out["repeat_same"] = _same(r3, r)
+    except Exception as e:      # noqa
+        out["repeat_same"] = False
+        out["repeat_exc"] = type(e).__name__
     return out
 
 
@@ -303,7 +532,7 @@ def _bad(o):
 
 
 def model(ctx, cases, outs):
-    args = [[c["seed"], c["mask"], _fp_grid(c)] for c in cases]
+    args = [[c["seed"], c["mask"], _fp_grid(c), _off_arg(c)] for c in cases]
     res = ctx.run_model("entry_recon", args)
     # premise of C04_model_safe_partial, discharged per instance: the set-up state satisfies Inv
     inv = ctx.run_model("entry_prep_check", args)
@@ -333,17 +562,18 @@ def compare(case, out, m):
     return None
 
 
-def _offsets(fpg):
-    fh, fw = len(fpg), len(fpg[0])
-    return [(a - fh // 2, b - fw // 2) for a in range(fh) for b in range(fw)
-            if fpg[a][b] and (a, b) != (fh // 2, fw // 2)]
+def _offsets(case):
+    fpg = _fp_grid(case)
+    o0, o1 = _origin(case)
+    return [(a - o0, b - o1) for a in range(len(fpg)) for b in range(len(fpg[0]))
+            if fpg[a][b] and (a, b) != (o0, o1)]
 
 
 def _levels(case, R):
     """untrusted certificate: breadth-first levels from the pixels that kept their seed value"""
     H, W = len(R), len(R[0])
     seed = case["seed"]
-    offs = _offsets(_fp_grid(case))
+    offs = _offsets(case)
     lvl = [[-1] * W for _ in range(H)]
     q = deque()
     for i in range(H):
@@ -375,14 +605,14 @@ def check(ctx, cases, outs):
             res[k] = "output shape %s differs from the input shape" % (o["shape"],)
             continue
         idx.append(k)
-    args = [[cases[k]["seed"], cases[k]["mask"], _fp_grid(cases[k]), outs[k]["R"], _levels(cases[k], outs[k]["R"])]
-            for k in idx]
+    args = [[cases[k]["seed"], cases[k]["mask"], _fp_grid(cases[k]), outs[k]["R"], _levels(cases[k], outs[k]["R"]),
+             _off_arg(cases[k])] for k in idx]
     for k, r in zip(idx, ctx.run_model("entry_check", args)):
         if r != 1:
             res[k] = ("output is not the reconstruction by dilation (Spec.ReconSpec.recon_check rejects it: not between "
                       "seed and mask, raisable by a dilate-and-clip step, or not least)")
-    iargs = [[cases[k]["seed"], cases[k]["mask"], _fp_grid(cases[k]), len(cases[k]["seed"]) * len(cases[k]["seed"][0]) + 2]
-             for k in idx]
+    iargs = [[cases[k]["seed"], cases[k]["mask"], _fp_grid(cases[k]), len(cases[k]["seed"]) * len(cases[k]["seed"][0]) + 2,
+              _off_arg(cases[k])] for k in idx]
     for k, r in zip(idx, ctx.run_model("entry_iter", iargs)):
         if res[k]:
             continue
@@ -392,7 +622,12 @@ def check(ctx, cases, outs):
             res[k] = "output differs from iterated dilate-and-clip (Spec.ReconSpec.recon_iter): %s vs %s" % (
                 str(outs[k]["R"])[:150], str(r[0])[:150])
         elif not outs[k]["again_same"]:
-            res[k] = "applying grey_reconstruction to its own output changed it"
+            res[k] = "applying grey_reconstruction to its own output changed it (%s)" % outs[k].get("again_exc", "differs")
+        elif not outs[k]["repeat_same"]:
+            res[k] = ("calling grey_reconstruction again with the same inputs in the same process gave a different "
+                      "result (%s): state kept between calls" % outs[k].get("repeat_exc", "differs"))
+        if outs[k].get("inputs_mutated"):
+            ctx.count("note: caller's arrays modified by the call")
     return res
 
 
@@ -407,7 +642,7 @@ def kernel_crosscheck(ctx, cases, outs):
            and len(c["seed"]) * len(c["seed"][0]) <= 16 and len(_fp_grid(c)) * len(_fp_grid(c)[0]) <= 15
            and nontrivial(c, outs[k])][:40]
     idx += [k for k, c in enumerate(cases) if c.get("bad")][:4]
-    args = [[cases[k]["seed"], cases[k]["mask"], _fp_grid(cases[k])] for k in idx]
+    args = [[cases[k]["seed"], cases[k]["mask"], _fp_grid(cases[k]), _off_arg(cases[k])] for k in idx]
     exp = [[3] if cases[k].get("bad") else [outs[k]["R"], 0] for k in idx]
     r = ctx.coq_eval_eq("Model.Recon", "entry_recon", args, exp, tag="recon")
     bad = [k for k, b in zip(idx, r) if b is not True]
@@ -418,11 +653,11 @@ def kernel_crosscheck(ctx, cases, outs):
     cargs, cexp = [], []
     for n, k in enumerate([k for k in idx if not cases[k].get("bad")][:24]):
         c, R = cases[k], outs[k]["R"]
-        cargs.append([c["seed"], c["mask"], _fp_grid(c), R, _levels(c, R)]); cexp.append(1)
+        cargs.append([c["seed"], c["mask"], _fp_grid(c), R, _levels(c, R), _off_arg(c)]); cexp.append(1)
         i, j = n % len(R), (n // 2) % len(R[0])
         R2 = [list(row) for row in R]
         R2[i][j] += 1 if n % 2 else -1
-        cargs.append([c["seed"], c["mask"], _fp_grid(c), R2, _levels(c, R2)]); cexp.append(0)
+        cargs.append([c["seed"], c["mask"], _fp_grid(c), R2, _levels(c, R2), _off_arg(c)]); cexp.append(0)
     ext = ctx.run_model("entry_check", cargs)
     if ext != cexp:
         return "extracted recon_check accepts a perturbed output or rejects a correct one (harness self-test)", len(idx)
@@ -442,6 +677,14 @@ def search_cases(ctx, rnd):
     return cases
 
 
+_PLAIN_LAY = {"seed": "C", "mask": "C", "fp": "C"}
+
+
+def _plain_enc(s, m):
+    lo, hi = int(min(s.min(), m.min())), int(m.max())
+    return {"lo": lo, "tbl": list(range(lo, hi + 1)), "sd": "int64", "md": "int64", "negzero": False}
+
+
 def _mk(case, seed, mask, fp="same"):
     c = dict(case)
     s = np.array(seed, int)
@@ -449,12 +692,6 @@ def _mk(case, seed, mask, fp="same"):
     c["seed"], c["mask"] = s.tolist(), m.tolist()
     if fp != "same":
         c["fp"] = fp
-    if c["enc"]["kind"] == "tbl":
-        lo = int(min(s.min(), m.min()))
-        if lo < c["enc"]["lo"] or int(m.max()) - c["enc"]["lo"] >= len(c["enc"]["tbl"]):
-            c["enc"] = {"kind": "num", "seed": "float64", "mask": "float64", "order": "C"}
-    elif c["enc"].get("seed") == "uint8" or c["enc"].get("mask") == "uint8":
-        c["enc"] = {"kind": "num", "seed": "int64", "mask": "int64", "order": "C"}
     return c
 
 
@@ -472,13 +709,15 @@ def shrink_candidates(case):
             yield _mk(case, np.delete(s, j, 1), np.delete(m, j, 1))
     if case["fp"] is not None:
         f = np.array(case["fp"], int)
+        o0, o1 = _origin(case)
         for a, b in np.argwhere(f):
             g = f.copy(); g[a, b] = 0
             yield _mk(case, s, m, g.tolist())
-        if f.shape[0] > 3 and not f[0].any() and not f[-1].any():
-            yield _mk(case, s, m, f[1:-1].tolist())
-        if f.shape[1] > 3 and not f[:, 0].any() and not f[:, -1].any():
-            yield _mk(case, s, m, f[:, 1:-1].tolist())
+        if not case.get("offset"):
+            if f.shape[0] > 3 and not f[0].any() and not f[-1].any():
+                yield _mk(case, s, m, f[1:-1].tolist())
+            if f.shape[1] > 3 and not f[:, 0].any() and not f[:, -1].any():
+                yield _mk(case, s, m, f[:, 1:-1].tolist())
     lo = int(s.min())
     for i, j in np.argwhere(s > lo)[:12]:
         t = s.copy(); t[i, j] = lo
@@ -486,8 +725,15 @@ def shrink_candidates(case):
     for i, j in np.argwhere(m > s)[:12]:
         t = m.copy(); t[i, j] = s[i, j]
         yield _mk(case, s, t)
-    if case["enc"]["kind"] != "num" or case["enc"].get("seed") != "int64":
-        c = dict(case); c["enc"] = {"kind": "num", "seed": "int64", "mask": "int64", "order": "C"}
+    if case["lay"] != _PLAIN_LAY:
+        c = dict(case); c["lay"] = dict(_PLAIN_LAY)
+        yield c
+    pe = _plain_enc(s, m)
+    if case["enc"] != pe:
+        c = dict(case); c["enc"] = pe
+        yield c
+    if case.get("offset") and case["offset"]["as"] != "array":
+        c = dict(case); c["offset"] = {"o": case["offset"]["o"], "as": "array"}
         yield c
 
 
@@ -504,7 +750,7 @@ MANIFEST = {
         "are proved for every state satisfying a verified, per-instance-checked invariant."),
     "level_note": (
         "Trusted: Coq kernel + vm_compute; extraction (ExtrOcamlBasic only) and the S-expression driver; the Python "
-        "harness incl. the order-preserving integer coding of float inputs; NumPy sort semantics as modelled. The tie "
+        "harness incl. the order-preserving integer coding of the inputs (all dtypes); NumPy sort semantics as modelled. The tie "
         "between model and code is differential, not a proof about Python/C. That the loop computes the reconstruction "
         "for every input is established per instance by the verified checker, not by a general loop proof."),
     "technique": "Coq proof over spec + verified certificate checker on implementation output + exact differential "
